@@ -5,6 +5,9 @@ CONSTANTS
   SeedNames = {"A","B","C"}
   Unflushed = {"CreateOrg","UpdateOrg","CreateTeam","RevokeToken","DeleteToken"}
   AuthUnflushed = {}
+  ExpirePos = {0, 1, 2}
+  ExpireBefore = {"DeleteOrg","UpdateTeam","DeleteTeam","CreateRole","UpdateRole","DeleteRole","CreateMP","DeleteMP"}
+  TeamScan = FALSE
   Emit = TRUE
 INVARIANTS Integrity EmitInv
 
